@@ -24,6 +24,7 @@ import (
 	"fmt"
 	"os"
 	"path/filepath"
+	"regexp"
 	"sort"
 	"strings"
 	"sync"
@@ -228,6 +229,13 @@ func checkInput(src string) string {
 					continue
 				}
 			}
+			if emptyMemberCrash(src, rterr) {
+				if e, ok := kf.Known("C32", "class-empty-member-name"); ok {
+					emptyMember.n++
+					emptyMember.what = e.What
+					continue
+				}
+			}
 			return fmt.Sprintf("%s: Go runtime error: %v", parseTargets[i].name, rterr)
 		}
 	}
@@ -238,6 +246,18 @@ func checkInput(src string) string {
 var foldErr struct {
 	n    int
 	what string
+}
+
+// emptyMember counts inputs excluded because of finding class-empty-member-name.
+var emptyMember struct {
+	n    int
+	what string
+}
+
+var rxEmptyName = regexp.MustCompile("(''|\"\"|``)\\s*:")
+
+func emptyMemberCrash(src string, e any) bool {
+	return fmt.Sprint(e) == "runtime error: index out of range [0] with length 0" && rxEmptyName.MatchString(src)
 }
 
 func foldArithError(e any) bool {
@@ -287,9 +307,10 @@ var seedTexts = []string{
 	`[a: 1, b: [c: 2]]`,
 	`x > 1 and x < 5 or name =~ "^a" and d >= #20200101`,
 	`-123.456e-7`,
+	`Name { X: 1, "y z": 2, F() { return .X } }`,
 }
 
-var mutTokens = []string{"(", ")", "{", "}", "[", "]", "\"", "'", "`", "\\", "#", "/*", "*/", "//", "\n", "\r\n", "\x00", "\xff",
+var mutTokens = []string{"'': ", "\"\": 1", "(", ")", "{", "}", "[", "]", "\"", "'", "`", "\\", "#", "/*", "*/", "//", "\n", "\r\n", "\x00", "\xff",
 	"0x", "1e", "1_", "_1", "..", "::", ".5.", "9999999999999999999999", "function", "class", "catch", "switch", "case", "|", "||", "@", "? :", "++", "--", "=", "$=", "\x80\x81", "é", "\t"}
 
 func mutate(t *rapid.T, src string) string {
@@ -629,9 +650,13 @@ func TestC32(t *testing.T) {
 	}
 
 	judge := func(t *rapid.T, class, src string) {
-		foldErr.n = 0
+		foldErr.n, emptyMember.n = 0, 0
 		if msg := checkInput(src); msg != "" {
 			t.Fatalf("%s\ninput class %s, %d bytes (quoted): %q", msg, class, len(src), src)
+		}
+		if emptyMember.n > 0 {
+			rec.Excluded("class-empty-member-name")
+			rec.Known(emptyMember.what)
 		}
 		if foldErr.n > 0 {
 			rec.Excluded("folding-go-runtime-error")
@@ -749,6 +774,9 @@ func FuzzC32Parse(f *testing.F) {
 		for i := range parseTargets {
 			if rterr, _ := parseTotal(i, src); rterr != nil {
 				if _, ok := kf.Known("C32", "folding-go-runtime-error"); ok && foldArithError(rterr) {
+					continue
+				}
+				if _, ok := kf.Known("C32", "class-empty-member-name"); ok && emptyMemberCrash(src, rterr) {
 					continue
 				}
 				t.Fatalf("%s: Go runtime error: %v\ninput (quoted): %q", parseTargets[i].name, rterr, src)
